@@ -104,7 +104,7 @@ def run(ctx):
                 evs = evs2
         for ci, ch in enumerate(traces.split_at(evs, "Epoch", 6000 if mode == "wake" else 20000)):
             files.append((label, traces.write(ch, base + "_c%d.ndjson" % ci)))
-    res = ctx.validate_many("sync/CondLin.tla", "CondLin.cfg", [f for _, f in files], par=6, timeout=900)
+    res = ctx.validate_many("sync/CondLin.tla", "CondLin.cfg", [f for _, f in files], par=6, timeout=900 if ctx.quick else 3000)
     for (label, f), (_, ok, matched) in zip(files, res):
         if not ok:
             ev = None
